@@ -272,9 +272,78 @@ pub fn run(args: &Args) -> serde_json::Value {
                 "temper_times": temper_times, "energies": energies}));
         }
     }
+    // ---- the real samplers: "-<n>/beta + offset" uses the sampler's own offset; it must be the constant that makes
+    // every matrix element non-negative, sum|J| + N (Gamma + |h|), for either sign of h — computed here from the
+    // model parameters, with <n> taken from the operator counts seen by the user's fold
+    let n_real = if args.thorough { 600 } else { 90 };
+    let mut n_real_neg_h = 0usize;
+    let mut n_real_ladders = 0usize;
+    for k in 0..n_real {
+        let spec = crate::ising::random_ising(&mut rng, 4, true);
+        if spec.h < 0.0 {
+            n_real_neg_h += 1
+        }
+        let beta = [0.5, 1.0, 2.0][rng.below(3) as usize];
+        let t = 1 + rng.below(12) as usize;
+        let f = 1 + rng.below(t as u64) as usize;
+        let ctx = json!({"edges": spec.edges, "gamma": spec.gamma, "h": spec.h, "beta": beta, "T": t, "freq": f, "initial_cutoff": spec.cutoff});
+        let r = std::panic::catch_unwind(std::panic::AssertUnwindSafe(|| {
+            let mut g = spec.build(TapeRng::new(rng.next()));
+            let (ns, e) = g.timesteps_measure_with_self(t, beta, Vec::<usize>::new(), |mut acc, me| { acc.push(QmcStepper::get_n(me)); acc }, Some(f));
+            (ns, e, g.get_offset())
+        }));
+        match r {
+            Err(_) => oracle_failures.push(json!({"what": "timesteps_measure on a real Ising sampler panicked", "context": ctx})),
+            Ok((ns, e, off)) => {
+                if ns.len() != t / f {
+                    oracle_failures.push(json!({"what": format!("fold invoked {} times on a real sampler, floor(T/f) = {}", ns.len(), t / f), "context": ctx}));
+                } else {
+                    let mean = ns.iter().sum::<usize>() as f64 / ns.len() as f64;
+                    let want = -mean / beta + spec.offset();
+                    if (e - want).abs() > 1e-9 || (off - spec.offset()).abs() > 1e-9 {
+                        oracle_failures.push(json!({"what": format!("a real Ising sampler returned energy {} but -<n>/beta + (sum|J| + N(Gamma+|h|)) = {} (reported offset {}, required {})", e, want, off, spec.offset()), "context": ctx}));
+                    }
+                }
+            }
+        }
+        // the tempering drivers on a ladder of this model: per-replica energy = -(per-step mean of n)/beta + that offset;
+        // with swap period > T no exchange happens, so each position's n history is the replica's own
+        if k % 3 == 0 {
+            n_real_ladders += 1;
+            let par = k % 2 == 0;
+            let betas = [beta, beta * 0.5];
+            let r = std::panic::catch_unwind(std::panic::AssertUnwindSafe(|| {
+                let mut tc: crate::c10::TC = TemperingContainer::new(TapeRng::new(rng.next()));
+                for b in betas.iter() {
+                    tc.add_qmc_stepper(spec.build(TapeRng::new(rng.next())), *b).unwrap();
+                }
+                // reference: identical clones advanced step by step
+                let mut refs: Vec<_> = tc.graph_ref().iter().map(|(g, _)| g.clone()).collect();
+                let res = if par { tc.parallel_timesteps_sample(t, t + 1, f) } else { tc.timesteps_sample(t, t + 1, f) };
+                let mut want = vec![];
+                for (g, b) in refs.iter_mut().zip(betas.iter()) {
+                    let mut sum = 0usize;
+                    for _ in 0..t {
+                        g.timestep(*b);
+                        sum += QmcStepper::get_n(g);
+                    }
+                    want.push(-(sum as f64 / t as f64) / b + spec.offset());
+                }
+                (res.iter().map(|(_, e)| *e).collect::<Vec<f64>>(), want)
+            }));
+            match r {
+                Err(_) => oracle_failures.push(json!({"what": "a tempering driver on real samplers panicked", "context": ctx, "parallel": par})),
+                Ok((got, want)) => {
+                    if got.iter().zip(want.iter()).any(|(a, b)| (a - b).abs() > 1e-9) {
+                        oracle_failures.push(json!({"what": format!("tempering driver on real samplers returned energies {:?}, per-step averages with offset sum|J| + N(Gamma+|h|) are {:?}", got, want), "context": ctx, "parallel": par}));
+                    }
+                }
+            }
+        }
+    }
     oracle_failures.truncate(40);
     let files = crate::write_shards(&args.out, "C17", "C17", &coq, if args.thorough { 600 } else { 150 });
-    json!({"files": files, "evaluations": coq.len(), "distinct_nontrivial": distinct.len(), "cases_with_non_divisor_T": nondiv,
+    json!({"files": files, "evaluations": coq.len(), "distinct_nontrivial": distinct.len(), "cases_with_non_divisor_T": nondiv, "real_sampler_measuring_runs": n_real, "real_samplers_with_negative_h": n_real_neg_h, "real_sampler_ladders": n_real_ladders,
         "oracle_failures": oracle_failures, "samples": samples,
         "rule": "scripted stepper (state encodes configuration id and step count; n is a fixed function of both): all (T, f) with T<=14, f<=8 and random larger ones through timesteps_measure / _sample / _sample_iter / _sample_iter_zip; all (T, s, f) <= 7 and random larger ones through the serial and rayon tempering drivers with ladders of 2..8 replicas; distinct = distinct parameter tuples"})
 }
